@@ -16,8 +16,9 @@ from inference.pdf.hdi import sample_hdi
 
 RULE = ("cases = (sample, fraction, dtype, container) drawn by Hypothesis; non-trivial = ties present, or "
         "n*fraction within 1e-9 of an integer, or 2-D input; distinct by sha1 of the canonical case")
-ASSUMPTIONS = ["integer inputs are numbers that the float64 result array can hold exactly: below 2**53, or multiples of 2**12 over the whole "
-               "int64 / uint64 range",
+ASSUMPTIONS = ["integer inputs that the float64 result array can hold exactly (below 2**53, or multiples of 2**12 over the whole int64 / "
+               "uint64 range) are judged exactly; for other 64-bit integers the reported pair must be the float64 rounding of the end points "
+               "of an exactly-shortest window (brute sub-check only)",
                "NaN-free samples (ordering of NaN is undefined)"]
 
 DTYPES = ["float64", "float32", "float16", "int64", "int32", "uint8", "uint32", "uint64", "int8", "int16", "bool"]
@@ -25,12 +26,18 @@ DTYPES = ["float64", "float32", "float16", "int64", "int32", "uint8", "uint32", 
 
 @st.composite
 def column(draw, n, dtype):
-    kind = draw(st.sampled_from(["ties", "smooth", "outlier", "huge", "grid"]))
+    kind = draw(st.sampled_from(["ties", "smooth", "outlier", "huge", "grid"] + (["grid", "grid"] if dtype in ("int64", "uint64") else [])))
     if dtype == "bool":
         return [draw(st.booleans()) for _ in range(n)]
     if dtype.startswith("int") or dtype.startswith("uint"):
         lim = {"int32": 2**20, "int64": 2**40, "uint8": 255, "uint32": 2**31, "int8": 127, "int16": 32767, "uint64": 2**40}[dtype]
         low = 0 if dtype.startswith("uint") else -lim
+        if dtype in ("int64", "uint64") and kind == "grid":
+            # 64-bit integers that a float64 cannot hold (nanosecond time stamps, identifiers): judged by `rounded_check`
+            base = draw(st.sampled_from([2**53, 2**60, 2**62, 1_790_000_000_000_000_000] + ([2**63, 2**64 - 2**21] if dtype == "uint64" else [-(2**62)])))
+            # (spread over a few spacings of the float64 numbers at that magnitude, where rounding would reorder the window widths)
+            spread = max(1, 2 ** (abs(base).bit_length() - 53)) * draw(st.sampled_from([3, 10, 30]))
+            return [base + draw(st.integers(0, spread)) for _ in range(n)]
         if dtype in ("int64", "uint64") and kind in ("huge", "outlier"):
             # the whole range of the type, in numbers a float64 holds exactly (multiples of 4096)
             lo_k, hi_k = (-(2**51), 2**51 - 1) if dtype == "int64" else (0, 2**52 - 1)
@@ -163,6 +170,28 @@ def brute_check(col, lo, hi, f, label):
                                     f"[{s[i]},{s[j]}] width {wid[i, j]} holds {cnt[i, j]}")
 
 
+def rounded_check(col, lo, hi, f, label):
+    """64-bit integer samples whose values a float64 cannot hold: the result array is float64, so the reported end points can only be
+    the roundings of two sample values.  Accepted: the rounding of the end points of any window of sorted sample values that holds c
+    points and is exactly (integer arithmetic) as short as the shortest window with c points, for some count c from the smallest that
+    holds the requested fraction up to one more."""
+    import math
+    e = sorted(int(v) for v in col)
+    n = len(e)
+    c_min = max(1, math.ceil(Fraction(f) * n))
+    c_max = min(n, c_min + 1)      # (one point more than needed: the window convention floor(f n) + 1, whichever way f n rounds)
+    ok = set()
+    for c in range(c_min, max(c_min, c_max) + 1):
+        if c > n:
+            break
+        widths = [e[i + c - 1] - e[i] for i in range(n - c + 1)]
+        w = min(widths)
+        ok |= {(float(e[i]), float(e[i + c - 1])) for i in range(n - c + 1) if widths[i] == w}
+    if (float(lo), float(hi)) not in ok:
+        raise Violation("shortest-rounded", f"{label}: reported ({lo!r}, {hi!r}) for a {col.dtype} sample near {e[0]} is not the float64 rounding of any exactly-shortest window holding "
+                                            f"{c_min}..{c_max} of the {n} points (acceptable: {sorted(ok)[:3]})")
+
+
 def body_brute(case, ctx):
     arr = build(case)
     f = case["fraction"]
@@ -189,7 +218,11 @@ def body_brute(case, ctx):
     eff = given if isinstance(given, np.ndarray) else np.array(given)
     for c in range(ncol):
         col = eff if eff.ndim == 1 else eff[:, c]
-        brute_check(col, res2[0, c], res2[1, c], f, f"col{c}")
+        if col.dtype.kind in "iu" and col.dtype.itemsize == 8 and any(int(float(int(v))) != int(v) for v in col):
+            rounded_check(col, res2[0, c], res2[1, c], f, f"col{c}")
+            ctx.event("64-bit integers a float64 cannot hold")
+        else:
+            brute_check(col, res2[0, c], res2[1, c], f, f"col{c}")
         ties = ties or (np.unique(col).size < col.size)
         # column-wise = 1-D call
         one = np.asarray(call(col.copy(), f), dtype=float)
